@@ -211,7 +211,10 @@ PROPS = {
         bounded=_mod("c10"),
         trusted=["TB-antlr", "TB-fml", "TB-py"],
         assumed=[],
-        explanation="Engine P proves the visitor methods (Or/And/Negation/Paren/Var incl. Top/Bottom) against the documented meaning; "
+        lemmas=["RangeList"],
+        explanation="Engine P proves the visitor methods (Or/And/Negation/Paren/Var incl. Top/Bottom) against the documented meaning, "
+        "visitCondition (a condition list denotes its conditionals in the order written, consequent before and antecedent after the bar) and "
+        "visitConditionals (the parsed base's conditionals are keyed 1..n in that order); "
         "the ANTLR-generated recogniser is a table-driven interpreter outside its reach and is compared exhaustively with a reference "
         "parser written from docs/CL_SYNTAX.md on all token strings up to the stated length (bounded).",
     ),
